@@ -133,7 +133,7 @@ func (c *ivCtx) term(v ssa.Value, params map[ssa.Value]string, depth int) ivTerm
 	switch x := v.(type) {
 	case *ssa.Const:
 		if x.Value != nil && x.Value.Kind() == constant.Int {
-			if k, ok := constant.Int64Val(x.Value); ok {
+			if k, ok := cInt64(x.Value); ok {
 				return ivTerm{node: "Z", off: int(k)}
 			}
 		}
@@ -382,7 +382,7 @@ func (c *ivCtx) lowerBound(v ssa.Value, assume map[ssa.Value]int, depth int) (in
 	switch x := v.(type) {
 	case *ssa.Const:
 		if x.Value != nil && x.Value.Kind() == constant.Int {
-			if k, ok := constant.Int64Val(x.Value); ok {
+			if k, ok := cInt64(x.Value); ok {
 				return int(k), true
 			}
 		}
@@ -659,7 +659,7 @@ func (c *ivCtx) summary(fn *ssa.Function) *ivSummary {
 		switch x := v.(type) {
 		case *ssa.Const:
 			t := 1
-			if x.Value != nil && constant.BoolVal(x.Value) {
+			if x.Value != nil && cBool(x.Value) {
 				t = 0
 			}
 			paths = append(paths, path{cons: base, truth: t})
